@@ -285,6 +285,39 @@ def oracle(seed, tier):
                              "point": p, "depth": d, "covering": cov, "cmd": q3("W", p, d, props)})
         if si == 0:
             samples.append({"stack_world": json.loads(open(path).read()), "first_query": qs[0] if qs else None})
+    # ---- a slab / fault WITHOUT models of a kind leaves that kind's entries as they were (found by the proof attempt C02_line_no_models_identity, worker MR): velocity and grains
+    for kind in ("fault", "subducting plate"):
+        w = {"version": "1.1", "coordinate system": {"model": "cartesian"},
+             "features": [{"model": kind, "name": "f", "coordinates": [[0, 0], [0, 300e3]], "dip point": [100e3, 0], "segments": [{"length": 200e3, "thickness": [100e3], "angle": [45]}]}]}
+        path = os.path.join(wdir, "nomodels_%s.wb" % kind.split()[0])
+        json.dump(w, open(path, "w"))
+        empty = os.path.join(wdir, "nomodels_empty.wb")
+        json.dump({"version": "1.1", "coordinate system": {"model": "cartesian"}, "features": []}, open(empty, "w"))
+        pts = [([20e3, 100e3, 990e3], 10e3), ([30e3, 150e3, 975e3], 25e3)] if kind == "fault" else [([20e3, 100e3, 960e3], 40e3), ([50e3, 150e3, 920e3], 80e3)]
+        lines = ["world w %s -" % path, "world e %s -" % empty]
+        for (p3, d) in pts:
+            for pr in ([(4, 0, 0)], [(5, 0, 0)], [(3, 0, 1)]):
+                lines.append(q3("w", p3, d, pr)); lines.append(q3("e", p3, d, pr))
+        rc, out, err = proto.run_harness(lines)
+        if rc != 0 or len(out) != len(lines) or out[:2] != ["ok", "ok"]:
+            viol.append({"what": "library failed on the model-less %s world: rc=%s %s" % (kind, rc, out[:2]), "world_json": w}); continue
+        k = 2
+        seen = set()
+        for (p3, d) in pts:
+            tag = parse_answer(out[k]); vw, ve = parse_answer(out[k + 2]), parse_answer(out[k + 3]); gw, ge = parse_answer(out[k + 4]), parse_answer(out[k + 5])
+            k += 6
+            cases += 2
+            if tag[0] != "ok" or tag[1][0] == -1.0:
+                continue            # the point is not inside the feature
+            nontriv += 2
+            if vw != ve and "v" not in seen:
+                seen.add("v")
+                viol.append({"what": "%s without velocity models: the velocity at a point inside it is %s, without the feature %s" % (kind, vw[1] if vw[0] == "ok" else vw, ve[1] if ve[0] == "ok" else ve),
+                             "world_json": w, "world": path, "cmd": q3("w", p3, d, [(5, 0, 0)]), "probe": "line-without-velocity-models-writes-velocity"})
+            if gw != ge and "g" not in seen:
+                seen.add("g")
+                viol.append({"what": "%s without grains models: the grains entry at a point inside it is %s, without the feature %s" % (kind, gw[1] if gw[0] == "ok" else gw, ge[1] if ge[0] == "ok" else ge),
+                             "world_json": w, "world": path, "cmd": q3("w", p3, d, [(3, 0, 1)]), "probe": "line-without-grains-models-rewrites-matrices"})
     return {"violations": trim_violations(viol, 20), "summary": {"cases": cases, "violations": len(viol), "nontrivial": nontriv}, "samples": samples}
 
 
